@@ -60,11 +60,12 @@ Proof.
     assert (Hov : Z.of_nat (List.length (bs ++ skipn (List.length bs) buf)) = size) by (rewrite overwrite_length; lia).
     cbn [obind rerr_err].
     destruct e; cbn [is_some oerr_eqb];
-      [change (gerr_eqb (EExt wr) (EVar "io.EOF"%string)) with false;
-       change (gerr_eqb (EExt wr) (EVar "io.ErrUnexpectedEOF"%string)) with false
-      |change (gerr_eqb e_eof (EVar "io.EOF"%string)) with true
-      |change (gerr_eqb e_ueof (EVar "io.EOF"%string)) with false;
-       change (gerr_eqb e_ueof (EVar "io.ErrUnexpectedEOF"%string)) with true];
+      change (gerr_eqb (EExt wr) (EVar "io.EOF"%string)) with false;
+      change (gerr_eqb (EExt wr) (EVar "io.ErrUnexpectedEOF"%string)) with false;
+      change (gerr_eqb e_eof (EVar "io.EOF"%string)) with true;
+      change (gerr_eqb e_eof (EVar "io.ErrUnexpectedEOF"%string)) with false;
+      change (gerr_eqb e_ueof (EVar "io.EOF"%string)) with false;
+      change (gerr_eqb e_ueof (EVar "io.ErrUnexpectedEOF"%string)) with true;
       cbn [orb obind pbn_rel fst snd res_rel_exact ewrap]; rewrite app_nil_r; unfold mw_set_reader;
       cbn [mw_pm mw_groups mw_consulted].
     + (* the reader's own failure: wrapped, whatever it wraps *)
